@@ -87,6 +87,23 @@ def r1(R, m, methods):
                      "normal exit, by a re-synchronisation of the per-title attributes")
     for k, v in EXEMPT.items():
         R.exception("C17.R1", "columnfile.%s" % k, v)
+    # the re-synchronisation itself: on every path through set_attributes every title gets setattr(self, title, <its column>) -
+    # no early exit for special tables (an emptied table must lose its old full-length attribute arrays too)
+    sa = m.nfunc("%s.set_attributes" % CLS) if "set_attributes" in methods else None
+    if sa is None:
+        R.fail("columnfile.set_attributes vanished")
+    scfg = pyfacts.PyCFG(sa)
+    setloops = [l for l in ast.walk(sa) if isinstance(l, ast.For) and "self.titles" in src(l.iter)
+                and any(isinstance(c, ast.Call) and src(c.func) == "setattr" and len(c.args) == 3 and src(c.args[0]) == "self" for c in ast.walk(l))]
+    R.shape(len(setloops) == 1, "C17.R1", REL, "columnfile.set_attributes", "the loop over self.titles that calls setattr(self, title, column)")
+    R.check(scfg.postdominates(scfg.node_of(setloops[0]), scfg.entry), "C17.R1", REL, setloops[0].lineno, "columnfile.set_attributes",
+            "every path through set_attributes re-points every attribute",
+            "set_attributes returns early on some path: after a row operation whose result takes that path (e.g. an empty table) the "
+            "attributes keep pointing at the old columns, and chkarray() later copies them back into the storage")
+    call = [c for c in ast.walk(setloops[0]) if isinstance(c, ast.Call) and src(c.func) == "setattr"][0]
+    R.check(not any(isinstance(x, (ast.Break, ast.Continue, ast.Return)) for x in ast.walk(setloops[0])) and isinstance(pyfacts.containing_stmt(call), ast.Expr)
+            and getattr(pyfacts.containing_stmt(call), "_parent", None) is setloops[0], "C17.R1", REL, call.lineno, "columnfile.set_attributes",
+            "setattr for every title, unconditionally", "some titles are skipped by the re-synchronisation")
     nwrites = 0
     for name, fn in methods.items():
         w = data_writes(fn)
